@@ -42,6 +42,11 @@ RULE += " An EmergencyQuorum switched to an ordinary strategy with set_strategy(
 RULE += " Round 7: a `decoy` quorum (0..7 agents, its own strategy / threshold, ordinary or emergency, idle or voting) may be constructed in the same process between building the quorum under test and its vote: a decision depends on its own electorate only."
 RULE += " Round 8 regression: permit/block ballots of 2-3 voters x weights {0.25, 1, 2} x confidences {0.3, 1} are enumerated for WEIGHTED and CONFIDENCE (3744 cases)."
 
+RULE += " Round 9: `shapes` - a voter's payload may be something other than a dict carrying a confidence (free text that mentions the word 'confidence', empty text, None, a list, a number, a dict without the key, a tuple): such a reply is an ordinary ballot of confidence 1 (the default the code documents: confidence is read 'if present')."
+
+# payloads that carry no confidence entry: the ballot counts with the documented default confidence 1.0
+SHAPES = [None, "I have no confidence in the rollback plan", "confidence", "", None, ["confidence"], 0, {"reason": "low confidence"}, ("confidence", 0.1), "ok"]
+
 # BADCONF / BADCONF_NONE: the voter answers PERMIT but its reply cannot be converted into a ballot (confidence "high" / None): a failed voter
 KINDS = ["PERMIT", "EXECUTE", "BLOCK", "UNKNOWN", "DEFER", "FAILURE", "RAISE", "BADCONF", "BADCONF_NONE"]
 FAILED = ("UNKNOWN", "FAILURE", "RAISE", "BADCONF", "BADCONF_NONE")
@@ -84,8 +89,16 @@ def _case(draw):
         # another quorum alive in the same process, built (and possibly voting) after the one under test: its size, strategy and threshold are its own
         decoy = {"n": draw(st.integers(0, 7)), "emergency": draw(st.booleans()), "strategy": draw(st.integers(0, 6)), "threshold": draw(st.sampled_from([None, 0.1, 0.5, 1, 2])),
                  "ballot": draw(st.sampled_from(["none", "none", "permit", "block", "mixed"]))}
-    return {"emergency": emergency, "strategy": strat, "threshold": thr, "min_voters": mv, "voters": voters, "hist": hist, "exc": draw(st.integers(0, 11)),
+    case = {"emergency": emergency, "strategy": strat, "threshold": thr, "min_voters": mv, "voters": voters, "hist": hist, "exc": draw(st.integers(0, 11)),
             "from_emergency": from_em, "decoy": decoy}
+    if draw(st.integers(0, 3)) == 0:
+        # index 0 = the usual dict with a confidence; any other index = a payload without one (the ballot then counts with confidence 1)
+        shapes = draw(st.lists(st.sampled_from([0, 0, 1, 1, 2, 3, 4, 5, 6, 7, 8, 9]), min_size=n, max_size=n))
+        for v, sh in zip(voters, shapes):
+            if sh and v[0] not in ("BADCONF", "BADCONF_NONE"):
+                v[2] = 1
+        case["shapes"] = shapes
+    return case
 
 
 def strategy(tier):
@@ -93,13 +106,26 @@ def strategy(tier):
 
 
 EXHAUSTIVE_NOTE = {
-    "quick": "all unweighted ballots {PERMIT,BLOCK,UNKNOWN,DEFER,exception}^n for n=1..4 x (7 strategies + emergency), default thresholds: 780*8 = 6240 cases, each with all single-voter metamorphic variants; plus permit/block-only ballots of 5..9 voters by permit count x 7 strategies x 4 thresholds + emergency (1160 cases)",
-    "thorough": "same for n=1..6: 19530*8 = 156240 cases, each with all single-voter metamorphic variants; plus the same 1160 two-way ballots of 5..9 voters",
+    "quick": "864 payload-shape cases (9 shapes without a confidence entry x 4 small ballots x 3 placements x 8 quorums); all unweighted ballots {PERMIT,BLOCK,UNKNOWN,DEFER,exception}^n for n=1..4 x (7 strategies + emergency), default thresholds: 780*8 = 6240 cases, each with all single-voter metamorphic variants; plus permit/block-only ballots of 5..9 voters by permit count x 7 strategies x 4 thresholds + emergency (1160 cases)",
+    "thorough": "864 payload-shape cases; same for n=1..6: 19530*8 = 156240 cases, each with all single-voter metamorphic variants; plus the same 1160 two-way ballots of 5..9 voters",
 }
+
+
+def _shape_table():
+    """every payload shape without a confidence entry x small mixed ballots x 7 strategies + emergency: the reply still counts as the ballot it is"""
+    for sh in range(1, len(SHAPES)):
+        for voters in ([["PERMIT", 1, 1], ["BLOCK", 1, 1]], [["BLOCK", 1, 1], ["BLOCK", 1, 1], ["PERMIT", 1, 1]], [["PERMIT", 1, 1]], [["PERMIT", 1, 1], ["PERMIT", 1, 1], ["BLOCK", 1, 1]]):
+            for who in ("all", "blocks", "permits"):
+                shapes = [sh if who == "all" or (who == "blocks") == (v[0] == "BLOCK") else 0 for v in voters]
+                for s in range(7):
+                    yield {"emergency": False, "strategy": s, "threshold": None, "min_voters": 1, "voters": [list(v) for v in voters], "shapes": shapes}
+                yield {"emergency": True, "strategy": 6, "threshold": 0.3, "min_voters": 1, "voters": [list(v) for v in voters], "shapes": shapes}
 
 
 def enumerate_cases(tier):
     for case in _two_way_ballots():
+        yield case
+    for case in _shape_table():
         yield case
     for case in _weighted_table():
         yield case
@@ -151,6 +177,7 @@ def _two_way_ballots():
 
 class _Stub:
     exc = 0      # index into _exc.EXC_TYPES, set per case
+    shapes = None   # per-voter payload shapes (index into SHAPES), set per case; voters are named v<i>
 
     def __init__(self, name, kind, conf):
         self.name = name
@@ -164,15 +191,21 @@ class _Stub:
             raise make(_Stub.exc, "voter crashed")
         if self.kind in ("BADCONF", "BADCONF_NONE"):
             return ActionProtein("PERMIT", {"confidence": "high" if self.kind == "BADCONF" else None}, self.conf)
+        sh = 0
+        if _Stub.shapes and self.name[:1] == "v" and self.name[1:].isdigit() and int(self.name[1:]) < len(_Stub.shapes):
+            sh = _Stub.shapes[int(self.name[1:])]
+        if sh:
+            return ActionProtein(self.kind, SHAPES[sh], 1.0)
         return ActionProtein(self.kind, {"confidence": self.conf}, self.conf)
 
 
-def _run(case, voters, hist=None):
+def _run(case, voters, hist=None, shapes="case"):
     """Build the quorum and take one vote.  Without `hist` the object is fresh; with it the same final configuration is
     reached through the public mutation API (late add_agent / remove_agent / set_agent_weight / set_strategy, earlier
     votes and statistics calls), so stale derived state shows up."""
     from operon_ai.state.metabolism import ATP_Store
     from operon_ai.topology.quorum import AgentProfile, EmergencyQuorum, QuorumSensing, VotingStrategy
+    _Stub.shapes = case.get("shapes") if shapes == "case" else shapes   # payload shapes travel with the voters (S9 re-seats both)
     budget = ATP_Store(1000, silent=True)
     hist = hist or {}
     final_strat = getattr(VotingStrategy, STRATS[case["strategy"]])
@@ -274,6 +307,8 @@ def judge(case):
            "abstain": res.abstain_votes, "score": res.weighted_score}
 
     # S8 history independence: the decision is a function of the ballot and configuration, not of how the colony got there
+    if any(case.get("shapes") or []):
+        out.label("payload-without-confidence")
     if case.get("hist"):
         out.label("history")
         try:
@@ -306,11 +341,12 @@ def judge(case):
                 return pp + pb != 0 and abs(pp / (pp + pb) - t) < F(1, 10 ** 9)
             return False
 
-        for order_name, v2 in (("reversed", voters[::-1]), ("rotated", voters[1:] + voters[:1])):
+        sh_ = case.get("shapes") or [0] * len(voters)
+        for order_name, v2, sh2 in (("reversed", voters[::-1], sh_[::-1]), ("rotated", voters[1:] + voters[:1], sh_[1:] + sh_[:1])):
             if v2 == voters:
                 continue
             try:
-                r2 = _run(case, v2)
+                r2 = _run(case, v2, shapes=sh2)
             except Exception as e:
                 out.fail("raise:%s:%s" % (type(e).__name__, tag), "run_vote raised %s" % e, {"voters": v2})
                 break
